@@ -822,6 +822,10 @@ pub fn oracle_c15(ctx: &Ctx, sub: &str, idx: u64, case: &Case, obs: &Observed, o
             padded.extend_from_slice(&[0u8; 8]);
             let r = catch(|| {
                 let mut p = flacenc::component::parser::subframe::<BitErr<'_>>(n, bps);
+                if ch % 2 == 1 {
+                    // a parser object that has been used before (on a prefix of the subframe)
+                    let _ = p((&sb[..sb.len() / 2], 0));
+                }
                 p((&padded[..], 0)).map(|((rest, off), x)| ((padded.len() - rest.len()) * 8 + off, x)).map_err(|e| format!("{e:?}").chars().take(160).collect::<String>())
             });
             match r {
